@@ -379,6 +379,7 @@ def run(rep):
     lpe = pq.PEval()
     lpe.inline = {n.name: n for n in mod.tree.body if isinstance(n, ast.FunctionDef) and n.name.startswith("_") and not n.name.startswith("__")}
     labels_tab = labels_dec = None
+    altered_data = []
     for p_ in lpe.run(pf):
         if p_.how != "return":
             continue
@@ -393,6 +394,8 @@ def run(rep):
                 kw = x[2][2]
             if kw is not None:
                 (cand_t if pq.call_named(x, ".DataFrame") else cand_d).append(kw)
+            if len(x[2]) >= 2:
+                altered_data.append((x[1], x[2][1]))
         for cands, n_ in ((cand_t, 7), (cand_d, 5)):
             for c_ in cands:
                 f_ = pfold.fold(c_, BASE)
@@ -415,6 +418,11 @@ def run(rep):
             return cn.ratio(w) == cn.ratio(got)
         except Undecided:
             return False
+    # what the kernel computed is returned as computed: the arrays handed to Series / DataFrame carry no later store or arithmetic
+    touched = [(nm, d_) for nm, d_ in altered_data if pq.call_named(d_, "setitem") or d_[0] in ('add', 'sub', 'mul', 'div', 'where', 'neg') or
+               (d_[0] == 'call' and d_[1] in ('clip', 'maximum', 'minimum', 'abs', 'round', 'around', 'nan_to_num', 'where'))]
+    rep.check(not touched, "R03.b", "stat/metrics.py", "crps", "table and decomposition are returned as the kernel computed them (no later store or arithmetic)",
+              f"{touched[0][0]} receives {show(touched[0][1])[:120]}" if touched else "", line=pf.lineno)
     if labels_tab is None or labels_dec is None:
         rep.undecided("R03.b", "stat/metrics.py", "crps", "labels of the table / decomposition", "label lists not recognised on the evaluated paths", line=pf.lineno)
         return EXPLANATION
@@ -462,6 +470,7 @@ def run(rep):
     dsame = dimp = ""
     und = None
     layout_bad = []
+    transposed = []
     for p_ in cpaths:
         v = p_.value
         if not (v[0] == 'tuple' and len(v[1]) >= 2 and all(pq.call_named(x, "getitem") for x in v[1][:2])):
@@ -477,6 +486,9 @@ def run(rep):
                     continue
             und = "returned series are not row selections of the inputs"
             continue
+        tr_ = pq.find(v[1][1][2][0], lambda x: x[0] == 'call' and x[1] in ("attr:T", "transpose", ".transpose", "swapaxes", ".swapaxes"))
+        if tr_:
+            transposed.append(p_)
         mo, me = pq.selector_mask(v[1][0][2][1]), pq.selector_mask(v[1][1][2][1])
         to = pq.mask_table(mo, series_of, {"obs": 1, "ens": 2})
         te = pq.mask_table(me, series_of, {"obs": 1, "ens": 2})
@@ -488,6 +500,8 @@ def run(rep):
         bad = [k_ for k_, val in to.items() if val and not dict(k_)[('valid', 'obs')]]
         if bad:
             okimp, dimp = False, f"a row with a missing observation is kept when {dict(bad[0])}"
+    rep.check(not transposed, "R03.e", "stat/metrics.py", "__check_ensemble_data", "forecasts stay along axis 0 of the ensemble (no transposition on any path)",
+              f"{len(transposed)} returning path(s) transpose the ensemble: a square ensemble (as many members as forecasts) satisfies any shape test used to decide it", line=ck.lineno)
     rep.check(not layout_bad, "R03.e", "stat/metrics.py", "__check_ensemble_data", "the ensemble reaches the kernel as a fresh C-ordered array on every path (row selection copies)",
               f"{len(layout_bad)} returning path(s) hand the converted input on with the caller's memory layout: a transposed / Fortran-ordered ensemble is rejected by the shim", line=ck.lineno)
     if und:
